@@ -76,10 +76,12 @@ class Phase:
         if isinstance(e, (ast.Attribute, ast.Subscript)):
             return self.of_expr(f, D, e.value, seen) if not isinstance(e.value, ast.Name) or D.of(D.key(e.value)) else "real"
         if isinstance(e, (ast.Tuple, ast.List)):
-            out = "real"
+            # a container of arrays (np.stack / np.array of components): the class all of its members share
+            out = None
             for x in e.elts:
-                out = add_phase(out, self.of_expr(f, D, x, seen)) if out != "real" or self.of_expr(f, D, x, seen) != "real" else "real"
-            return out
+                p = self.of_expr(f, D, x, seen)
+                out = p if out is None or out == p else "complex"
+            return out or "real"
         if isinstance(e, ast.Call):
             d = dotted(e.func)
             r = self.repo.resolve_name(f.module, d, f) if d else None
@@ -126,5 +128,10 @@ def unit_factor(f):
             return cl * cr, pl and pr
         return 1 + 0j, False
 
+    if isinstance(e, ast.Call) and (dotted(e.func) or "").split(".")[-1] in ("stack", "array", "asarray") and e.args \
+            and isinstance(e.args[0], (ast.Tuple, ast.List)) and e.args[0].elts:
+        # components joined along a new axis: the common prefactor of the components
+        cs = {factor(x)[0] for x in e.args[0].elts}
+        return cs.pop() if len(cs) == 1 else None
     c, _ = factor(e)
     return c
